@@ -129,6 +129,22 @@ CHECKS = {
                  "on str(p) and repr(p) for all 8 display orders x exponent/multiply signs x int/+-1/float/complex/bool "
                  "coefficients, and str(p) must equal the Lean printer's rendering; to_sympy round trip for 0-d polynomials.",
          "note": BASE_NOTE + " str() of numpy scalars is a parameter of the printer model (the harness passes numpy's own text of every coefficient); numpy print options at defaults."},
+ "C15": {"ref": "5/C15", "technique": "Lean 4 corollaries of the refinement theorems (stated for all retain flags / display orders) + correspondence over option settings x operation catalogue",
+         "text": "add_indep, mul_indep (also: never fails), clean_indep, align_indep, derivative_indep, display_indep: the "
+                 "refinement theorems of C01/C03/C04/C06/C16 hold for every flag value with an option-free right-hand side, so "
+                 "any two settings give the same denotation. The run calls the ~95-entry operation catalogue under the 8 "
+                 "single flips + 24 random settings (thorough: all 256) x display strings and compares denotation, shape, "
+                 "dtype with the default-option result; nothing may raise.",
+         "note": BASE_NOTE + " sort_* are held fixed for ordering-based entries and division runs under default retain options, as the property says."},
+ "C17": {"ref": "5/C17", "technique": "Lean 4 frame theorem of a store-passing model + decide over the write-site inventory regenerated by AST analysis + byte-level argument snapshots over the catalogue",
+         "text": "frame: a disciplined operation (every write goes to an object allocated during the call or to an explicit "
+                 "output target) leaves every pre-existing object unchanged - any number of steps. inventory_covered "
+                 "(decide over harness/writesites.py's inventory of numpoly/**/*.py, regenerated each run): every in-place "
+                 "write the conservative analysis cannot prove local is one of the 41 reviewed sites, so a new in-place "
+                 "statement that may reach caller data breaks an obligation even if no test input aliases. The run snapshots "
+                 "every argument (shape, dtype, names, keys, bytes) around ~95 catalogue entries on generated, pre-aligned, "
+                 "same-object and raising calls.",
+         "note": BASE_NOTE + " The AST classification is conservative and trusted; the byte-level fact is monitored, not proved about Python."},
 }
 CLAIMED = set(CHECKS)
 NOT_APPLICABLE = {f"C{i:02d}": "check under construction in this session (will be claimed once built)"
